@@ -17,7 +17,7 @@
 (* quantifies r over the value space (small constants), the trace            *)
 (* specifications T_*.tla bind r to the value logged from the real code.     *)
 (***************************************************************************)
-EXTENDS LaneInt, LaneBool, LaneFloat, TLC
+EXTENDS LaneInt, LaneBool, LaneFloat, Reduce, Perm, TLC
 
 VARIABLES reg, breg, last
 xvars == <<reg, breg, last>>
@@ -109,6 +109,51 @@ CvtWith(op, tf, tt, w, a, r) ==
   /\ IF op = "bitwise_cast" THEN (IF w = 0 THEN BitCastScalarOK(tf, tt, a, r) ELSE BitCastOK(tf, w, a, r))
      ELSE CvtBad(op, tf, tt, w, a, r) = {}
   /\ reg' = [reg EXCEPT ![0] = r, ![1] = a] /\ last' = <<op, tf, tt>> /\ UNCHANGED breg
+
+\* ---- reductions (C09): register-granular, n = w / sizeof(T) lanes of the operand row ------------------------------------
+RegLanes(a, t, n) == Seq1([i \in 1 .. n |-> Lane(a, t, i - 1)], n)
+ReduceOK(op, t, xs, r) == IF TypeTab[t].kind = "float" THEN FloatReduceOK(op, FmtOfT(t), xs, r) ELSE IntReduceOK(op, TypeTab[t].S, xs, r)
+\* haddp: matrix row i, lane j = operand row a lane (3 i + j) mod L, diagonal (j = i) from operand row b lane i mod L;
+\* result lane i reduces row i
+HaddRow(a, b, t, n, i) == Seq1([j \in 1 .. n |-> IF j - 1 = i THEN Lane(b, t, i % NLanes(t)) ELSE Lane(a, t, (3 * i + (j - 1)) % NLanes(t))], n)
+HaddBad(t, n, a, b, r) == {i \in 0 .. n - 1 : ~ReduceOK("haddp", t, HaddRow(a, b, t, n, i), Lane(r, t, i))}
+ReduceCond(op, t, n, a, b, r) == IF op = "haddp" THEN HaddBad(t, n, a, b, r) = {} ELSE ReduceOK(op, t, RegLanes(a, t, n), r)
+ReduceUpd(op, t, a, r) == reg' = [reg EXCEPT ![0] = r, ![1] = a] /\ last' = <<op, t>> /\ UNCHANGED breg
+ReduceWith(op, t, n, a, b, r) == ReduceCond(op, t, n, a, b, r) /\ ReduceUpd(op, t, a, r)
+
+\* ---- data movement (C05): register-granular; lanes are byte strings, compared bit-exactly ------------------------------
+RegSeq(a, t, n) == Seq1([i \in 1 .. n |-> Lane(a, t, i - 1)], n)
+ZeroLane(t) == ZeroN(TypeTab[t].nb)
+IdxSeq(b, t, n) == Seq1([i \in 1 .. n |-> ToInt(Lane(b, t, i - 1))], n)           \* run-time index batch (same-width unsigned lanes)
+\* expected result register (sequence of lanes) of a data-movement operation; idx = compile-time mask / count (sequence)
+PermExpected(op, t, n, a, b, imm, idx) ==
+  LET x == RegSeq(a, t, n)  y == IF b = NoRow THEN x ELSE RegSeq(b, t, n) IN
+  CASE op = "swizzle_ct"   -> Swizzle(x, idx)
+    [] op = "swizzle_dyn"  -> Swizzle(x, IdxSeq(b, t, n))
+    [] op = "shuffle"      -> Shuffle(x, y, idx)
+    [] op = "zip_lo"       -> ZipLo(x, y)
+    [] op = "zip_hi"       -> ZipHi(x, y)
+    [] op = "rotate_left"  -> RotateLeft(x, idx[1])
+    [] op = "rotate_right" -> RotateRight(x, idx[1])
+    [] op = "extract_pair" -> ExtractPair(x, y, imm)
+    [] op = "insert"       -> Insert(x, idx[1], Lane(b, t, 0))
+    [] op = "compress"     -> Compress(x, SubSeq(b, 1, n), ZeroLane(t))
+    [] op = "expand"       -> Expand(x, SubSeq(b, 1, n), ZeroLane(t))
+PermDefined(op, t, n, b, imm) == IF op = "swizzle_dyn" THEN \A i \in 0 .. n - 1 : BLt(Lane(b, t, i), FromInt(n))
+                                 ELSE IF op = "extract_pair" THEN imm >= 0 /\ imm < n ELSE TRUE
+PermBad(op, t, n, a, b, imm, idx, r) ==
+  IF ~PermDefined(op, t, n, b, imm) THEN {}
+  ELSE IF op \in {"slide_left", "slide_right"}
+       THEN LET w == n * TypeTab[t].nb  src == SubSeq(a, 1, w)
+                ex == IF op = "slide_left" THEN SlideLeft(src, idx[1], 0) ELSE SlideRight(src, idx[1], 0)
+            IN {j \in 0 .. w - 1 : r[j + 1] # ex[j + 1]}
+       ELSE LET ex == PermExpected(op, t, n, a, b, imm, idx) IN {i \in 0 .. n - 1 : Lane(r, t, i) # ex[i + 1]}
+\* transpose: matrix element (i, j) = (131 i + 17 j + seed) mod 2^bits as a lane; result rows are stored one after the other
+MatElem(t, i, j, seed) == LET v == Fix(FromInt(i * 131 + j * 17 + seed), TypeTab[t].nb) IN
+                          IF TypeTab[t].kind = "float" THEN IntToFloat(FmtOfT(t), FALSE, v) ELSE v     \* (T)(131 i + 17 j + seed)
+TransposeBad(t, n, seed, r) == {p \in (0 .. n - 1) \X (0 .. n - 1) :
+                                 SubSeq(r, (p[1] * n + p[2]) * TypeTab[t].nb + 1, (p[1] * n + p[2] + 1) * TypeTab[t].nb) # MatElem(t, p[2], p[1], seed)}
+PermUpd(op, t, a, r) == reg' = [reg EXCEPT ![0] = r, ![1] = a] /\ last' = <<op, t>> /\ UNCHANGED breg
 
 \* ---- comparisons, select, Boolean registers (C03) ------------------------------------------------
 CmpLane(op, t, x, y) == IF TypeTab[t].kind = "float" THEN CmpFloat(op, FmtOfT(t), x, y) ELSE CmpInt(op, TypeTab[t].S, x, y)
